@@ -823,9 +823,8 @@ impl CertificateParams {
 								oid::BASIC_CONSTRAINTS,
 								true,
 								|writer| {
-									writer.write_sequence(|writer| {
-										writer.next().write_bool(false); // cA flag
-									});
+									// cA is DEFAULT FALSE, so DER leaves it out
+									writer.write_sequence(|_writer| {});
 								},
 							);
 						},
